@@ -4,6 +4,9 @@ using TC = TemplateCore<char, QV::GValue, QV::GStream<char>>;
 template bool TC::evaluateExpression(QExpression &, QExpression &, const QExpression::QOperation) const noexcept;
 template QExpression::QOperation TC::getOperation(const char *, SizeT &, const SizeT) noexcept;
 template bool TC::isExpression(const char *, SizeT) noexcept;
+template void TC::parseIfCase(const char *, SizeT &, const SizeT, SizeT &, SizeT &) noexcept;
+template void TC::parseLoopAttributes(const char *, const SizeT, Tags::LoopTag &) noexcept;
+template void TC::checkLoopVariable(const char *, Tags::VariableTag &, const Tags::LoopTag *) noexcept;
 template void TC::renderVariable(const Tags::VariableTag &, SizeT &) const;
 template void TC::renderRawVariable(const Tags::VariableTag &, SizeT &) const;
 }
